@@ -8,4 +8,7 @@ PROP = {
          'Stringers and errors, unencodable reflected values); non-trivial = ≥2 fields+With levels; distinct = distinct canonical op JSON',
  'assumptions': ['strconv float text, time.Format text, base64 text and encoding/json output of reflected values are opaque leaves supplied by the harness (stdlib only)',
                  'sub-encoder functions are parameters: the op carries what each configured function appended, observed on a recording PrimitiveArrayEncoder'],
+ 'technique': 'Lean 4: encodeEntry = render(tree) by induction on call trees, parse∘render = id on emitted trees, unescape∘escape = sanitize, decimal round trip for all Int; tie: byte-level correspondence + independent reference decoding',
+ 'level_text': 'The decoded tree of every emitted line is proved to be exactly metadata, context and call-site fields in order with namespaces nesting the rest; strings and integers are proved recoverable; floats/base64/sub-encoder formats are checked by the oracle only.',
+ 'level_note': "Float shortest-round-trip text, base64 and the built-in sub-encoders' layouts are trusted stdlib/zap leaves validated only by the independent reference oracle.",
 }
